@@ -862,6 +862,22 @@ func init() {
 		g.p(")")
 	})
 	ddl := func(name string, f func(g *G)) { root(name, "ddl", f) }
+	ddl("column_def", func(g *G) {
+		g.kw("CREATE")
+		g.pk("TABLE")
+		g.plainID()
+		g.p("(")
+		g.columnDef()
+		g.p(")")
+	})
+	ddl("table_constraint", func(g *G) {
+		g.kw("CREATE")
+		g.pk("TABLE")
+		g.plainID()
+		g.p("(")
+		g.tableConstraint()
+		g.p(")")
+	})
 	ddl("create_schema", func(g *G) { g.kw("CREATE"); g.pk("SCHEMA"); g.id() })
 	ddl("drop_schema", func(g *G) { g.pk("DROP", "SCHEMA"); g.id() })
 	ddl("create_database", func(g *G) { g.kw("CREATE"); g.pk("DATABASE"); g.id() })
